@@ -90,12 +90,19 @@ class Ctx:
         self._loaded: list[Loaded] = []
 
     # -- module loading ---------------------------------------------------------------------
-    def load(self, text: str, stem: str = "case") -> Loaded:
-        """Write `text` to a real file and import it (guppy needs inspect.getsourcelines)."""
+    def load(self, text: str, stem: str = "case", fixed: str | None = None) -> Loaded:
+        """Write `text` to a real file and import it (guppy needs inspect.getsourcelines).
+        `fixed`: reuse one file path / module name for every such load of this worker — the file is
+        rewritten and re-imported, as when a user edits and reloads a module in one session."""
         global _counter
         _counter += 1
-        name = f"vfcase_{os.getpid()}_{_counter}_{stem}"
+        name = f"vfcase_{os.getpid()}_{_counter}_{stem}" if fixed is None else f"vfcase_{os.getpid()}_{fixed}"
         path = self.workdir / f"{name}.py"
+        if fixed is not None:
+            import linecache
+
+            sys.modules.pop(name, None)
+            linecache.checkcache(str(path))
         path.write_text(text)
         spec = importlib.util.spec_from_file_location(name, path)
         assert spec and spec.loader
